@@ -731,6 +731,17 @@ class TrajectoryStore:
                 'All trajectories in a TrajectoryStore must have the same data fields'
             )
 
+        # The first trajectory of a store created with associated files
+        # decides which files are created: it must carry every field set that
+        # was declared for them (checked here, before anything is created).
+        if (
+            self._file_creation_pending
+            and not self.associated_fieldsets <= trajectory._fieldsets
+        ):
+            raise ValueError(
+                'All trajectories in a TrajectoryStore must have the same data fields'
+            )
+
         # As soon as we've added one trajectory to the store, we have fixed the
         # data schema, which we check for each new trajectory.
         if len(self._trajectories) > 0:
